@@ -41,6 +41,7 @@ PALETTES = [
 NAMES = {1: "alpha beta", 2: "Glucose (D)", 3: "x<y & z"}
 FORMULAS = {1: "C6H12O6", 2: "H2O", 3: "C10H12N5O13P3"}
 COMPS = {1: "c", 2: "e", 3: "p"}
+CNAMES = {0: "", 1: "cytosol", 2: "extracellular space", 3: "Peri-plasm & <co>"}
 SUBSYS = {1: "Glycolysis", 2: "Transport, extracellular", 3: "S_ub"}
 
 
@@ -61,7 +62,7 @@ def _tree_text(t, gmap, top=True):
 
 # identifiers.org-style annotation values behind the abstract tokens 1..5: single identifiers and
 # lists of identifiers of one provider (one identifier a substring of an earlier one, dots)
-ANNVAL = {1: "1", 2: "2", 3: ["1.1.1.27", "1.1.1.2"], 4: "4", 5: ["21765", "1765", "10108"]}
+ANNVAL = {1: "1", 2: "2", 3: ["1.1.1.27", "1.1.1.2"], 4: "4", 5: ["21765", "1765", "10108"], 6: "6"}
 
 
 # note values behind the abstract tokens: plain text (1, 2) and what JSON / YAML / dict / pickle must also carry:
@@ -69,7 +70,17 @@ ANNVAL = {1: "1", 2: "2", 3: ["1.1.1.27", "1.1.1.2"], 4: "4", 5: ["21765", "1765
 NOTEVAL = {1: "1", 2: "2", 3: {"pmid": "12345", "doi": None}, 4: None, 5: ["in vitro", None]}
 
 
-def _note_token(val):
+# token 6: the notes ALSO carry the keys legacy (pre-fbc) SBML files used for data that has proper places now
+# (formula, charge, gene association): they are notes like any other and must not override anything
+LEGACY_NOTES = {"FORMULA": "C2H6O", "CHARGE": "3", "GENE_ASSOCIATION": "(b9 and b8)", "GENE ASSOCIATION": "b7",
+                "CONFIDENCE_LEVEL": "2"}
+
+
+def _note_token(val, notes=None):
+    if val == "6":
+        return 6 if notes is not None and all(notes.get(k) == v for k, v in LEGACY_NOTES.items()) else -1
+    if notes is not None and any(k in notes for k in LEGACY_NOTES):
+        return -1
     if isinstance(val, str) and val.isdigit():
         return int(val)
     for k, v in NOTEVAL.items():
@@ -695,9 +706,32 @@ class ModelDriver:
             elif via == 1:
                 o.annotation = dict(o.annotation, tok=val)
             else:
+                for k in LEGACY_NOTES:
+                    o.notes.pop(k, None)
                 o.notes["tok"] = copy.deepcopy(NOTEVAL.get(op["v"], str(op["v"])))
+                if op["v"] == 6:
+                    o.notes.update(LEGACY_NOTES)
                 o.annotation["tok"] = val
             return None
+        if a == "SetCompName":
+            model.compartments = {COMPS[op["c"]]: CNAMES[op["v"]]}
+            return None
+        if a == "AddSBO":
+            cobra.manipulation.add_SBO(model)
+            return None
+        if a == "Prune":
+            t = op["t"]
+            if t == s:
+                raise Skip("same slot")
+            fn = cobra.manipulation.prune_unused_metabolites if op["kind"] == "mets" else cobra.manipulation.prune_unused_reactions
+            out, removed = fn(model)
+            self.models[t] = out
+            self.ctx_ids[t] = []
+            self.detached[t] = {}
+            rev = self.rmet if op["kind"] == "mets" else self.rrx
+            return {"ids": sorted(rev.get(x.id, "?" + x.id) for x in removed)}
+        if a == "Query":
+            return {"q": self.query(model)}
         if a == "RoundTrip":
             from . import model_io
             if model._contexts:
@@ -715,6 +749,47 @@ class ModelDriver:
             from . import model_analyses
             return model_analyses.helper(self, model, op["kind"])
         raise Skip("unknown op " + a)
+
+    # ------------------------------------------------------------ read-only views
+    def query(self, model):
+        inexact = []
+        elems = ["C", "H", "N", "O", "P"]
+        rc = {v: k for k, v in COMPS.items()}
+        q = {"rev": {}, "bnd": {}, "react": {}, "prod": {}, "comps": {}, "mb": {}}
+        for r in RX:
+            q["rev"][r] = q["bnd"][r] = 0
+            q["react"][r], q["prod"][r], q["comps"][r], q["mb"][r] = [], [], [], [0] * 6
+            if self.rx[r] not in model.reactions:
+                continue
+            rxn = model.reactions.get_by_id(self.rx[r])
+            q["rev"][r] = 1 if rxn.reversibility else 0
+            q["bnd"][r] = 1 if rxn.boundary else 0
+            q["react"][r] = sorted(self.rmet.get(m.id, "?" + m.id) for m in rxn.reactants)
+            q["prod"][r] = sorted(self.rmet.get(m.id, "?" + m.id) for m in rxn.products)
+            q["comps"][r] = sorted(rc.get(c, -1) for c in rxn.compartments)
+            mb = rxn.check_mass_balance()
+            vec = [0] * 6
+            for k, v in mb.items():
+                if k == "charge":
+                    vec[5] = self.num(v, 1.0, "mb:" + r, inexact)
+                elif k in elems:
+                    vec[elems.index(k)] = self.num(v, 1.0, "mb:" + r, inexact)
+                else:
+                    vec[0] = 777777
+            q["mb"][r] = vec
+        q["bset"] = sorted(self.rrx.get(x.id, "?" + x.id) for x in model.boundary)
+        q["mcomps"] = sorted(rc.get(c, -1) for c in model.compartments)
+        q["exok"] = 1
+        try:
+            q["exch"] = sorted(self.rrx.get(x.id, "?" + x.id) for x in model.exchanges)
+            q["dem"] = sorted(self.rrx.get(x.id, "?" + x.id) for x in model.demands)
+            q["sink"] = sorted(self.rrx.get(x.id, "?" + x.id) for x in model.sinks)
+        except RuntimeError:
+            q["exok"] = 0
+            q["exch"], q["dem"], q["sink"] = [], [], []
+        if inexact:
+            q["exok"] = 2
+        return q
 
     # ------------------------------------------------------------ projection
     def project(self, model):
@@ -822,7 +897,7 @@ class ModelDriver:
                     ob = lst.get_by_id(conc[x])
                     try:
                         ann[x] = _ann_token(ob.annotation.get("tok", "0"))
-                        note[x] = _note_token(ob.notes.get("tok", "0"))
+                        note[x] = _note_token(ob.notes.get("tok", "0"), ob.notes)
                     except (TypeError, ValueError):
                         inexact.append("ann:%s:bad" % x)
         attr = {x: {"name": 0, "formula": 0, "charge": 99, "subsys": 0,
@@ -852,12 +927,18 @@ class ModelDriver:
                     if kind == "rxns":
                         attr[x]["subsys"] = rs.get(ob.subsystem, 0)
         o["attr"] = attr
+        try:
+            mc = model.compartments
+            rcn = {v: k for k, v in CNAMES.items()}
+            o["cname"] = [rcn.get(mc[COMPS[c]], -2) if COMPS[c] in mc else -1 for c in (1, 2, 3)]
+        except Exception:
+            o["cname"] = [-2, -2, -2]
         for g in GRP:
             ann[g] = 0
             note[g] = 0
         try:
             ann["MODEL"] = _ann_token(model.annotation.get("tok", "0"))
-            note["MODEL"] = _note_token(model.notes.get("tok", "0"))
+            note["MODEL"] = _note_token(model.notes.get("tok", "0"), model.notes)
         except (TypeError, ValueError, AttributeError):
             ann["MODEL"] = note["MODEL"] = 0
             inexact.append("ann:MODEL:bad")
@@ -985,7 +1066,23 @@ class ModelDriver:
                     row["c" + fr][r] = self.num(val[t], 1.0, "row:%s:%s:%s" % (am, r, fr), inexact)
                 else:
                     row["other"] += 1
-        o["lp"] = {"cols": cols, "rows": rows, "obj": obj, "objx": objx, "noncont": noncont,
+        import hashlib
+        canon = []
+        for j in range(1, ncols + 1):
+            l, u = bounds(glp_get_col_type(prob, j), glp_get_col_lb(prob, j), glp_get_col_ub(prob, j))
+            canon.append("c|%s|%.9g|%.9g|%d|%.9g" % (colname[j], l, u, glp_get_col_kind(prob, j), glp_get_obj_coef(prob, j) + 0.0))
+        for i in range(1, nrows + 1):
+            l, u = bounds(glp_get_row_type(prob, i), glp_get_row_lb(prob, i), glp_get_row_ub(prob, i))
+            k = glp_get_mat_row(prob, i, ind, val)
+            cf = sorted("%s:%.9g" % (colname[ind[t]], val[t]) for t in range(1, k + 1) if val[t] != 0)
+            nm = glp_get_row_name(prob, i)
+            canon.append("r|%s|%.9g|%.9g|%s" % ("fixed_objective" if nm.startswith("fixed_objective_") else nm, l, u, ",".join(cf)))
+        canon.sort()
+        canon.append("dir|%d" % glp_get_obj_dir(prob))
+        lpdig = hashlib.md5("\n".join(canon).encode("utf-8")).hexdigest()[:16]
+        if os.environ.get("VERIF_LP_CANON"):
+            o["lp_canon"] = canon
+        o["lp"] = {"dig": lpdig, "cols": cols, "rows": rows, "obj": obj, "objx": objx, "noncont": noncont,
                    "dir": "max" if glp_get_obj_dir(prob) == GLP_MAX else "min",
                    "xcols": sorted(xcols), "xrows": sorted(xrows)}
         # the optlang view of the objective must not mention variables that left the problem
@@ -1042,6 +1139,7 @@ class ModelDriver:
                       "ret": {"ids": (ret or {}).get("ids", []), "n": (ret or {}).get("n", 0),
                               "med": (ret or {}).get("med", {r: MISSING for r in RX}),
                               "x": (ret or {}).get("x", []), "x2": (ret or {}).get("x2", []),
+                              "q": (ret or {}).get("q", {}),
                               "ar": (ret or {}).get("ar", {"S": {m: 0 for m in MET}, "lb": 0, "ub": 0, "tt": [], "genes": [],
                                                            "detached": True})},
                       "hooks": list(hooks)[:400], "hooks_on": hooks_on,
